@@ -7,7 +7,7 @@ import ast
 from ..astutil import cond_terms, requires_flag, size_dependent
 from ..cfg import CFG
 from ..core import AnalysisError, const_value, walk_own
-from ..tutil import np_call
+from ..tutil import lin, np_call
 from ..defuse import MUTATORS, DefUse, Terms, show, walk_term
 from ..defuse import key as tkey
 
@@ -419,13 +419,19 @@ def _models_sorted(ctx):
               why + ("; the fitting call sits inside a loop, so the "
                      "numbering restarts" if in_loop else ""),
               node=tasks[0])
-    st = [(a, v) for (r, a, v, s) in DefUse(prog, fm).attr_stores
+    fdu = DefUse(prog, fm)
+    fT = Terms(fdu)
+    st = [(a, fT.of(v)) for (r, a, v, s) in fdu.attr_stores
           if r == fm.params[2] and a == "fold"]
-    ok_s = len(st) == 1 and ast.unparse(st[0][1]) in ("fold + 1", "1 + fold",
-                                                      "fold")
+    FOLD = ("param", fm.params[3])
+    ok_s = False
+    if len(st) == 1:
+        lf = lin(st[0][1])
+        ok_s = lf.const in (0, 1) and [
+            (lf.terms[k], c) for k, c in lf.atoms.items()] == [(FOLD, 1)]
     ctx.check(ok_s, "C05b-fold-recorded", fm,
               "the fitted model records the fold number it was given",
-              f"model.fold = {[ast.unparse(v) for _a, v in st]}",
+              f"model.fold = {[show(v, 60) for _a, v in st]}",
               node=fm.node)
 
 
